@@ -229,9 +229,11 @@ const (
 	stMetaLost
 	stOlderDB
 	stOlderDBMetaLost
+	stLocalOneBehind
+	nStartStates
 )
 
-var startNames = []string{"in-step", "meta-dir-lost", "older-db-file", "older-db-file+meta-dir-lost"}
+var startNames = []string{"in-step", "meta-dir-lost", "older-db-file", "older-db-file+meta-dir-lost", "newest-local-L0-file-lost"}
 
 type behindSpec struct {
 	start   int
@@ -264,6 +266,13 @@ func runBehind(base *behindBase, dir string, sp behindSpec, seed int64) (res beh
 	}
 	if sp.start == stMetaLost || sp.start == stOlderDBMetaLost {
 		_ = os.RemoveAll(meta)
+	}
+	if sp.start == stLocalOneBehind {
+		l0 := filepath.Join(meta, "ltx", "0")
+		if l := listL0(l0); len(l) > 0 {
+			t := ltx.TXID(l[len(l)-1])
+			_ = os.Remove(filepath.Join(l0, ltx.FormatFilename(t, t)))
+		}
 	}
 	r := NewRand(seed)
 	src := &srcDB{dir: dir, path: path}
@@ -466,7 +475,7 @@ func genBehind(e *env) error {
 	if e.thorough {
 		maxAt = 7
 	}
-	for start := 0; start < 4; start++ {
+	for start := 0; start < nStartStates; start++ {
 		specs = append(specs, behindSpec{start: start, at: -1, class: "behind/" + startNames[start] + "/no-fault"})
 		for at := 0; at < maxAt; at++ {
 			for variant := 0; variant < 3; variant++ {
